@@ -1,17 +1,18 @@
 #!/bin/bash
-# Re-runs the registered QUICK check of every kept seeded change against /repo with the change applied
-# (git -C /repo apply ... ; ./check ... ; git -C /repo checkout -- .) and rewrites selftest/seeded.json.
+# Re-runs the registered QUICK check of every kept seeded change with the change applied and rewrites selftest/seeded.json.
+# Default: literally on /repo, one after the other (git -C /repo apply ... ; ./check ... ; git -C /repo checkout -- .).
+# SEEDED_SLOTS=N (N > 1): N scratch worktrees of /repo's HEAD under /var/tmp, each given every N-th change through
+# VERIF_REPO (same build rules, same checks; /repo itself is not touched); the worktrees are removed afterwards.
 # usage: tools/run_seeded.sh [filter-regex]
 cd /verif
+N=${SEEDED_SLOTS:-1}
 [ -z "$(git -C /repo status --porcelain --untracked-files=no)" ] || { echo "/repo has uncommitted changes"; exit 2; }
-mkdir -p selftest; rows=""; miss=0
-for d in seeded/C*/; do
-  n=$(basename "$d"); id=${n%-*}
-  if [ -n "${1:-}" ] && ! echo "$n" | grep -qE "$1"; then continue; fi
-  git -C /repo apply "/verif/${d}patch.diff" || { echo "$n: patch does not apply"; miss=1; continue; }
-  t0=$(date +%s)
-  # the property the change was written against, plus every other claimed property whose anchored files it touches
-  props=$(python3 - "/verif/${d}patch.diff" "$id" <<'PY'
+mkdir -p selftest
+FILTER="${1:-}"
+list=(); for d in seeded/C*/; do n=$(basename "$d"); if [ -n "$FILTER" ] && ! echo "$n" | grep -qE "$FILTER"; then continue; fi; list+=("$n"); done
+
+props_of() {  # the property the change was written against, plus every other claimed property whose anchored files it touches
+  python3 - "$1" "$2" <<'PY'
 import json,re,sys
 files=set(re.findall(r'^\+\+\+ b/(\S+)', open(sys.argv[1]).read(), re.M))
 claimed=[l.strip() for l in open('/verif/tools/built.txt') if l.strip()]
@@ -21,21 +22,44 @@ for l in open('/verif/properties.jsonl'):
     if p['id'] in claimed and p['id'] not in out and files & set(p['anchors']['files']): out.append(p['id'])
 print(' '.join(out))
 PY
-)
-  rc=0; cls=""; per=""
-  for q in $props; do
-    VERIF_OUT=/var/tmp/verif-seeded-out ./check "$q" quick > /var/tmp/verif-seeded-out.log 2>&1; r=$?
-    per="$per $q=$r"
-    [ $r -eq 1 ] && { rc=1; cls="$cls$(grep -o 'class=[^ ]*' /var/tmp/verif-seeded-out.log | sort -u | head -3 | tr '\n' ' ')"; }
-    [ $r -ge 2 ] && [ $rc -eq 0 ] && rc=$r
-    [ $rc -eq 1 ] && break
+}
+
+run_slot() {  # $1 = slot, $2 = tree to patch
+  local slot=$1 tree=$2 i=0 n id rc cls per r q t0 out=/var/tmp/verif-seeded-out$1
+  : > /var/tmp/verif-seeded-rows$slot
+  for n in "${list[@]}"; do
+    i=$((i + 1)); [ $(( (i - 1) % N )) -eq "$slot" ] || continue
+    id=${n%-*}
+    if ! git -C "$tree" apply "/verif/seeded/$n/patch.diff"; then echo "$n: patch does not apply"; echo "{\"seeded\":\"$n\",\"property\":\"$id\",\"quick_check_exit\":2,\"classes\":\"patch does not apply\"}" >> /var/tmp/verif-seeded-rows$slot; continue; fi
+    t0=$(date +%s); rc=0; cls=""; per=""
+    for q in $(props_of "/verif/seeded/$n/patch.diff" "$id"); do
+      if [ "$tree" = /repo ]; then VERIF_OUT=$out ./check "$q" quick > $out.log 2>&1; r=$?; else
+        VERIF_REPO="$tree" VERIF_WORKERS=$(( 16 / N > 4 ? 16 / N : 4 )) VERIF_OUT=$out ./check "$q" quick > $out.log 2>&1; r=$?; fi
+      per="$per $q=$r"
+      [ $r -eq 1 ] && { rc=1; cls="$cls$(grep -o 'class=[^ ]*' $out.log | sort -u | head -3 | tr '\n' ' ')"; }
+      [ $r -ge 2 ] && [ $rc -eq 0 ] && rc=$r
+      [ $rc -eq 1 ] && break
+    done
+    git -C "$tree" checkout -- .
+    cls="$per | $cls"
+    echo "$n: quick check exit $rc ($(( $(date +%s) - t0 )) s) $cls"
+    echo "{\"seeded\":\"$n\",\"property\":\"$id\",\"quick_check_exit\":$rc,\"classes\":\"$cls\"}" >> /var/tmp/verif-seeded-rows$slot
   done
-  git -C /repo checkout -- .
-  cls="$per | $cls"
-  echo "$n: quick check exit $rc ($(( $(date +%s) - t0 )) s) $cls"
-  [ $rc -eq 1 ] || miss=1
-  rows="$rows{\"seeded\":\"$n\",\"property\":\"$id\",\"quick_check_exit\":$rc,\"classes\":\"$cls\"},"
-done
-rm -rf /var/tmp/verif-seeded-out /var/tmp/verif-seeded-out.log
-if [ -z "${1:-}" ]; then echo "{\"all_detected\":$([ $miss = 0 ] && echo true || echo false),\"rows\":[${rows%,}]}" > selftest/seeded.json; fi
+  rm -rf $out $out.log
+}
+
+if [ "$N" -le 1 ]; then N=1; run_slot 0 /repo; else
+  for s in $(seq 0 $((N - 1))); do
+    wt=/var/tmp/verif-rs-wt$s; git -C /repo worktree remove --force $wt 2>/dev/null; rm -rf $wt
+    git -C /repo worktree add -q --detach $wt HEAD || exit 2
+    run_slot $s $wt &
+  done
+  wait
+  for s in $(seq 0 $((N - 1))); do git -C /repo worktree remove --force /var/tmp/verif-rs-wt$s; rm -rf "build/alt_var_tmp_verif-rs-wt$s"; done
+  git -C /repo worktree prune
+fi
+rows=$(cat /var/tmp/verif-seeded-rows* | sort | paste -sd, -); rm -f /var/tmp/verif-seeded-rows*
+miss=0; echo "$rows" | grep -qE '"quick_check_exit":(0|[2-9])' && miss=1
+mode=$([ "$N" -le 1 ] && echo "applied to /repo" || echo "applied to $N scratch worktrees of /repo HEAD (VERIF_REPO)")
+if [ -z "$FILTER" ]; then echo "{\"all_detected\":$([ $miss = 0 ] && echo true || echo false),\"mode\":\"$mode\",\"rows\":[$rows]}" > selftest/seeded.json; fi
 exit $miss
